@@ -163,6 +163,28 @@ def run_anymod_bounded(tier, seed):
     return out
 
 
+def run_hek_bounded(tier, seed):
+    """bounded (exhaustive over a small alphabet) validation of the ASSUMED contract of layout_parsing_formatting::has_exactly_keys and of the verified has_at_least_keys"""
+    import witness
+    out = dict(name='hek_bounded', kind='enumerative (bounded)', counts_as_proof=False)
+    try:
+        exe = witness.build()
+    except Exception as e:
+        out['undecided'] = 'harness build failed: %s' % str(e)[-300:]; return out
+    t0 = time.time()
+    p = subprocess.run([exe, 'hek'], stdout=subprocess.PIPE, stderr=subprocess.PIPE, timeout=600)
+    try:
+        d = json.loads(p.stdout.decode().strip().split('\n')[-1])
+    except Exception as e:
+        out['undecided'] = 'probe output unreadable: %s %s' % (e, p.stderr.decode()[-300:]); return out
+    out.update(exhaustive=False, evaluations=d['cases'], distinct_nontrivial=d['cases'], sample='object {"from":..,"to":..}, list ["from","to"]', wall_s=round(time.time() - t0, 2),
+               explanation='real has_exactly_keys / has_at_least_keys of the JSON front end on every object over five member names (32 objects) and every list of at most three names (156 lists, duplicates included): %d cases; has_exactly_keys is compared with "the sorted member names equal the sorted list" and with its ASSUMED contract (true only if every listed name is a member - what the unwrap after get relies on); bounded, not counted as proof' % d['cases'],
+               bound='five member names, lists of length <= 3')
+    out['violations'] = len(d['failures'])
+    out['violation_list'] = [dict(input=f['input'], what=f['what']) for f in d['failures'][:1]]
+    return out
+
+
 def run_tables_enum(tier, seed):
     """C13: the two lazy_static tables against the US-QWERTY layout, complete over all scalar values / all rows (real tables through the harness)"""
     import witness
